@@ -8,6 +8,7 @@ Line-protocol driver for the plans / conditional-simulation model (property C07)
       matrices in `QMat.toText` form, bit tables as rows of 0/1 separated by commas
 -/
 import IrisVerif.Model.Plans
+import IrisVerif.Model.PlanFrames
 import IrisVerif.Driver.Util
 
 open IrisVerif IrisVerif.Plans IrisVerif.Driver
@@ -34,15 +35,34 @@ def kind? : String → Option Kind
 
 def showSpots (l : List Spot) : String := ";".intercalate (l.map fun (q, c) => s!"{q}:{c}")
 
+def endPt? (s : String) : Option EndPt :=
+  match s.splitOn ":" with
+  | [t] => t.toInt?.map EndPt.abs
+  | ["cs", a] => a.toInt?.map EndPt.fromStart
+  | ["ce", o] => o.toInt?.map EndPt.fromEnd
+  | _ => none
+
+/-- the dates of a plan call: `t1,t2,…` (a collection of periods, any order) or `s/<e1>/<e2>/<step>` (a `Span`; end points `t`,
+`cs:a` = `ir.start + a`, `ce:o` = `ir.end + o`) -/
+def dateArg? (s : String) : Option DateArg :=
+  match s.splitOn "/" with
+  | ["s", e1, e2, st] => do
+    let e1 ← endPt? e1
+    let e2 ← endPt? e2
+    let st ← st.toInt?
+    pure (.span e1 e2 st)
+  | [_] => (csvInts? s).map DateArg.periods
+  | _ => none
+
 def runOps (p : Plan) : List String → Option (Plan × List String)
   | [] => some (p, [])
   | op :: rest =>
     match words op with
     | ["w", k, st, per, nm] =>
-      match kind? k, csvInts? per, csvNats? nm with
+      match kind? k, dateArg? per, csvNats? nm with
       | some k, some per, some nm =>
         if st ≠ "T" ∧ st ≠ "F" then none else
-        match p.write k per nm (st = "T") with
+        match p.writeDates k per nm (st = "T") with
         | .ok p' => (runOps p' rest).map fun (q, out) => (q, "ok" :: out)
         | .error .badName => (runOps p rest).map fun (q, out) => (q, "err:name" :: out)
         | .error .badPeriod => (runOps p rest).map fun (q, out) => (q, "err:period" :: out)
@@ -107,11 +127,23 @@ def stepCond (secs : List String) : String :=
     | _, _, _, _, _, _, _, _, _ => "bad-op"
   | _ => "bad-op"
 
+/-- `memo | P | X | J | Ru | forward values csv`: one solution object, a history of `expand_square_solution(forward)` calls -/
+def stepMemo (secs : List String) : String :=
+  match secs with
+  | [_, P, X, J, Ru, fw] =>
+    match mat? P, mat? X, mat? J, mat? Ru, csvNats? fw with
+    | some P, some X, some J, some Ru, some fw =>
+      let s : Sol := ⟨QMat.zero P.rows P.rows, #[], P, X, J, Ru⟩
+      " || ".intercalate ((s.expandHistory fw).map fun call => " & ".intercalate (call.map QMat.toText))
+    | _, _, _, _, _ => "bad-op"
+  | _ => "bad-op"
+
 def step (line : String) : String :=
   let secs := sections line
   match (secs.headD "").splitOn " " |>.headD "" with
   | "plan" => stepPlan secs
   | "cond" => stepCond secs
+  | "memo" => stepMemo secs
   | _ => "bad-op"
 
 end IrisVerif.Driver.C07
